@@ -639,7 +639,7 @@ theorem C02_shell_refines_event (s : Sys.Sys F) (e : Sys.Ev) (hinv : ShellInv s)
 * periodic flush: only sends;
 * housekeeping: only a reset (reconnect, with `reset_for_reconnect` or — failed socket re-creation —
   `mark_for_recovery`);
-* `setCfg` / `crit` / `failNext` / `failBind` / `stamp` (verdict stamps): nothing;
+* `setCfg` / `crit` / `failNext` / `failBind` / `stamp` (verdict stamps) / `syncTimeout`: nothing;
 * uplink datagram, by type code: SRT ACK 0x8002 — only cumulative ACKs; SRT NAK 0x8003 and SRTLA ACK 0x9100 —
   only single retirements; REG3 0x9202 and REG_ERR 0x9210 — only a reset, and only on the ARRIVAL link;
   any other type (keepalive, REG_NGP, REG2, data, unknown) and datagrams too short for a type code — nothing. -/
@@ -653,6 +653,7 @@ theorem C02_shell_event_kinds (s : Sys.Sys F) (e : Sys.Ev) (j : Nat) (k : KOp) (
     | .failNext _ => False
     | .failBind _ => False
     | .stamp _ _ _ _ _ => False
+    | .syncTimeout => False
     | .uplink _ cid data =>
         ∃ pt, Codec.getPacketTypeS data = some pt ∧
           ((pt = 0x8002 ∧ ∃ a, k = .cumAck a) ∨ ((pt = 0x8003 ∨ pt = 0x9100) ∧ ∃ q, k = .retire q) ∨
@@ -718,6 +719,16 @@ theorem C02_shell_event_kinds (s : Sys.Sys F) (e : Sys.Ev) (j : Nat) (k : KOp) (
     | retire q =>
       rcases (hk : evOps s (.stamp idx weak ld ccb cct) j .sack ∨ evOps s (.stamp idx weak ld ccb cct) j .nak)
         with h | h <;> exact absurd h.1 (by decide)
+  | syncTimeout =>
+    -- the only operation of `sync_conn_timeout` is the neutral `syncTimeout`: no set operation
+    cases k with
+    | send q => exact Op.noConfusion (hk : Op.take = Op.syncTimeout)
+    | reset =>
+      rcases (hk : Op.mark = Op.syncTimeout ∨ Op.reconnect = Op.syncTimeout ∨ Op.reg3 = Op.syncTimeout)
+        with h | h | h <;> cases h
+    | cumAck a => exact Op.noConfusion (hk : Op.srtAck = Op.syncTimeout)
+    | retire q =>
+      rcases (hk : Op.sack = Op.syncTimeout ∨ Op.nak = Op.syncTimeout) with h | h <;> cases h
   | uplink now cid data =>
     have arr : ∀ {p : Prop}, ((s.links.findIdx? (·.core.connId == cid) == some j) = true ∧ p) →
         s.links.findIdx? (·.core.connId == cid) = some j := fun h => by simpa using h.1
